@@ -239,6 +239,40 @@ def class_set(model: Model, mod, e: ast.expr) -> Optional[list]:
     return out
 
 
+def _virtual_instance(model: Model, builtin: str, w: ClassInfo) -> bool:
+    """A builtin class (int, Decimal, float, str, bool) is a virtual subclass of the ABC `w` when
+    a subclass of `w` has a __subclasshook__ that accepts it with issubclass(subclass, ..) — the
+    proxies of elementpath.datatypes (read from their bodies on every run)."""
+    short = builtin.split('.')[-1]
+    if short not in ('int', 'Decimal', 'float', 'str', 'bool'):
+        return False
+    for c in model.all_classes():
+        if c is not w and not c.is_subclass_of(w):
+            continue
+        hook = c.methods.get('__subclasshook__')
+        if hook is None:
+            continue
+        rets = [x for x in ast.walk(hook.node) if isinstance(x, ast.Return) and x.value is not None]
+        if len(rets) != 1:
+            continue
+        v = rets[0].value
+        # issubclass(subclass, B) [and not issubclass(subclass, X)]: positive conjunct names B
+        conj = v.values if isinstance(v, ast.BoolOp) and isinstance(v.op, ast.And) else [v]
+        pos = [x for x in conj if isinstance(x, ast.Call) and dotted(x.func) == 'issubclass'
+               and len(x.args) == 2]
+        neg = [x.operand for x in conj if isinstance(x, ast.UnaryOp) and isinstance(x.op, ast.Not)
+               and isinstance(x.operand, ast.Call) and dotted(x.operand.func) == 'issubclass']
+        if len(pos) + len(neg) != len(conj) or not pos:
+            continue
+
+        def names(call: ast.Call) -> set[str]:
+            t = call.args[1]
+            return {dotted(e).split('.')[-1] for e in (t.elts if isinstance(t, ast.Tuple) else [t])}
+        if any(short in names(x) for x in pos) and not any(short in names(x) for x in neg):
+            return True
+    return False
+
+
 def implies(model: Model, have: list, want: list) -> bool:
     """every class of `have` is a subclass of some class of `want`."""
     for h in have:
@@ -249,6 +283,8 @@ def implies(model: Model, have: list, want: list) -> bool:
             elif isinstance(h, ClassInfo) and isinstance(w, ClassInfo) and h.is_subclass_of(w):
                 ok = True
             elif isinstance(h, ClassInfo) and isinstance(w, str) and h.is_subclass_of(w):
+                ok = True
+            elif isinstance(h, str) and isinstance(w, ClassInfo) and _virtual_instance(model, h, w):
                 ok = True
         if not ok:
             return False
@@ -459,6 +495,41 @@ def r03_3(ctx, counts) -> RuleResult:
             elif kind == 'not-none':
                 sname = stmt_text(subj)
                 if f'-{sname} is None' in fs:
+                    discharged = True
+            if not discharged and kind == 'isinstance' and want is not None \
+                    and isinstance(subj, ast.Name):
+                # every evaluation-derived definition of the subject is an element V[k] taken
+                # under the fact all(isinstance(x, C) for x in V) with C implying the assertion
+                defs = [nd2 for nd2 in cfg.nodes if nd2.kind == 'stmt'
+                        and isinstance(nd2.ast, ast.Assign) and any(
+                            isinstance(t, ast.Name) and t.id == subj.id for t in nd2.ast.targets)]
+                tdefs = [nd2 for nd2 in defs
+                         if 'eval' in T.value_taint(nd2.ast.value, T.at(nd2), nd2)]
+
+                def element_of_checked_list(nd2) -> bool:
+                    v = nd2.ast.value
+                    if isinstance(v, ast.IfExp):
+                        # the tainted alternative of `f(V) if c else V[0]`
+                        alts = [a_ for a_ in (v.body, v.orelse)
+                                if 'eval' in T.value_taint(a_, T.at(nd2), nd2)]
+                        if len(alts) != 1:
+                            return False
+                        v = alts[0]
+                    if not (isinstance(v, ast.Subscript) and isinstance(v.value, ast.Name)):
+                        return False
+                    for fact in facts[nd2.id]:
+                        m4 = re.match(r'^\+all\(\(?isinstance\((\w+), (.+)\) for (\w+) in (\w+)\)?\)$',
+                                      fact)
+                        if m4 and m4.group(1) == m4.group(3) and m4.group(4) == v.value.id:
+                            try:
+                                have = class_set(model, f.module,
+                                                 ast.parse(m4.group(2), mode='eval').body)
+                            except SyntaxError:
+                                have = None
+                            if have is not None and implies(model, have, want):
+                                return True
+                    return False
+                if tdefs and all(element_of_checked_list(d_) for d_ in tdefs):
                     discharged = True
             res.instances.append(label + (' [eval-derived, implied]' if discharged
                                           else ' [eval-derived, NOT implied]'))
